@@ -152,6 +152,8 @@ def gen_session(rng, tier, profile="mixed"):
     if policy:
         flags = rng.randrange(256)          # every flag word, accepted or refused by the API
     flags &= ~F_COMPRESS
+    if rng.random() < 0.1:
+        flags |= F_COMPRESS             # allowed by the user, never offered by the scripted server
     ctype = rng.choice(["c"] * 8 + ["k", "r"])
     jid = rng.choice(["user@example.org/res", "user@example.org", "example.org", "u@example.org/",
                       "a,b=c@example.org/r"])
@@ -162,6 +164,7 @@ def gen_session(rng, tier, profile="mixed"):
         pw = "secret"
     cert = 1 if rng.random() < 0.1 else 0
     ops.append("new %s %s %d %s %d" % (h(jid), "-" if pw is None else h(pw), flags, ctype, cert))
+    ctype0 = ctype
     if rng.random() < 0.6:
         ops.append("uhandlers")
     if rng.random() < 0.3:
@@ -177,7 +180,14 @@ def gen_session(rng, tier, profile="mixed"):
             continue
         if rng.random() < 0.06:
             ops.append("tcperr 1")
-        ops.append("connect")
+        if cyc > 0 and rng.random() < 0.1:
+            # another API entry point on the same object
+            ctype = rng.choice(["c", "k", "r"])
+            ops.append("connect " + ctype)
+        else:
+            ops.append("connect" if ctype == ctype0 and rng.random() < 0.7 else "connect " + ctype)
+        if rng.random() < 0.06:
+            ops.append("connect " + rng.choice(["c", "k", "r"]))      # refused: not disconnected
         if rng.random() < 0.1:
             ops.append("setflags %d" % rng.randrange(256))
         ops.append("run")
